@@ -63,6 +63,8 @@ type History struct {
 	Scenario *Scenario `json:"scenario,omitempty"`
 	// a history of real staking handlers instead of ops (handlers.go)
 	Handlers *HHist `json:"handlers,omitempty"`
+	// a whole-block scenario through the real staking.EndBlock (periods.go)
+	Periods *PScenario `json:"periods,omitempty"`
 	// filled by run
 	Hashes  []uint64 `json:"-"`
 	Panic   bool     `json:"-"`
@@ -115,6 +117,7 @@ func setup() {
 	for _, a := range daddrs {
 		all = append(all, a)
 	}
+	all = append(all, setupKeys()...) // delegators that can sign transactions (periods.go)
 	sort.Slice(all, func(i, j int) bool { return all[i].Big().Cmp(all[j].Big()) < 0 })
 	for i, a := range all {
 		rank[a] = int64(i + 1)
@@ -301,7 +304,12 @@ func initSorted() {
 	sortedD = append([]common.Address{}, daddrs[:]...)
 	sort.Slice(sortedV, func(i, j int) bool { return rk(sortedV[i]) < rk(sortedV[j]) })
 	sort.Slice(sortedD, func(i, j int) bool { return rk(sortedD[i]) < rk(sortedD[j]) })
+	oracleD = append(append([]common.Address{}, daddrs[:]...), kaddrs[:]...)
+	sort.Slice(oracleD, func(i, j int) bool { return rk(oracleD[i]) < rk(oracleD[j]) })
 }
+
+// oracleD: every delegator account the oracle looks at (the model's delegators and the signing ones)
+var oracleD []common.Address
 
 // ---- running one op on the implementation ---------------------------------
 
@@ -547,7 +555,7 @@ func oracle(st *state.StateDB) clause {
 			}
 		}
 	}
-	for _, d := range sortedD {
+	for _, d := range oracleD {
 		ac := st.VerifC08Account(d)
 		if !ac.Present {
 			continue
@@ -1306,7 +1314,7 @@ func loadCorpus(dir string) []*History {
 			continue
 		}
 		var h History
-		if json.Unmarshal(b, &h) == nil && (len(h.Ops) > 0 || h.Handlers != nil) {
+		if json.Unmarshal(b, &h) == nil && (len(h.Ops) > 0 || h.Handlers != nil || h.Periods != nil) {
 			h.Comment = "corpus:" + filepath.Base(f)
 			out = append(out, &h)
 		}
@@ -1400,7 +1408,12 @@ func gen(seed uint64, n int, outDir, corpusDir string, flavour int) {
 		}
 	}
 	var corpusHandlers []*HHist
+	var corpusPeriods []*PScenario
 	for _, h := range loadCorpus(corpusDir) {
+		if h.Periods != nil {
+			corpusPeriods = append(corpusPeriods, h.Periods)
+			continue
+		}
 		if h.Handlers != nil {
 			corpusHandlers = append(corpusHandlers, h.Handlers)
 			continue
@@ -1432,6 +1445,40 @@ func gen(seed uint64, n int, outDir, corpusDir string, flavour int) {
 		if f != "" {
 			res.OracleHits = append(res.OracleHits, History{What: "teDelegationSub scenario: " + f, Scenario: sc})
 			res.Count("oracle:VIOLATION")
+		}
+	}
+	// whole blocks through the real staking.EndBlock (oracle only; no hook involved)
+	for i := 0; i < len(corpusPeriods)+10+n/8; i++ {
+		var sc *PScenario
+		if i < len(corpusPeriods) {
+			sc = corpusPeriods[i]
+		} else {
+			sc = genPeriods(r)
+		}
+		res.Count("endblock-scenario")
+		for _, b := range sc.Blocks {
+			if b.PeriodEnd {
+				res.Count("endblock:period-end block")
+			} else {
+				res.Count("endblock:ordinary block")
+			}
+		}
+		f, kn, done := runPeriods(sc)
+		if f != "" {
+			cut := done + 1
+			if cut > len(sc.Blocks) {
+				cut = len(sc.Blocks)
+			}
+			c := *sc
+			c.Blocks = sc.Blocks[:cut]
+			res.OracleHits = append(res.OracleHits, History{What: "staking.EndBlock: " + f, Periods: &c})
+			res.Count("oracle:VIOLATION")
+		} else if kn != "" {
+			known[F10]++
+			if known[F10] <= 3 {
+				res.OracleHits = append(res.OracleHits, History{What: F10, Periods: sc, Comment: kn})
+			}
+			res.Count("oracle:known-finding:" + F10)
 		}
 	}
 	// histories of the real staking handlers on non-whole amounts (oracle only)
@@ -1468,6 +1515,12 @@ func gen(seed uint64, n int, outDir, corpusDir string, flavour int) {
 			}
 		}
 	}
+	for k, v := range pstats {
+		res.Distribution["endblock:"+k] += v
+	}
+	for name := range missingHooks {
+		res.Count("hook-unavailable:" + name + " (its steps were skipped)")
+	}
 	var sb strings.Builder
 	sb.WriteString("From VF.C08 Require Import Model.\nLocal Open Scope Z_scope.\nDefinition cases : list case := [\n")
 	for i, c := range cases {
@@ -1485,7 +1538,7 @@ func gen(seed uint64, n int, outDir, corpusDir string, flavour int) {
 	vf.WriteFile(filepath.Join(outDir, "Cases.v"), sb.String())
 	res.Cases = len(cases)
 	res.Distinct = len(distinct)
-	res.Rule = "random histories of public StateDB calls (fund, CreateValidator, PartialCopy+UpdateValidator as deposit/withdraw/status/role/rewards/in-place/raw write, RemoveValidator, UpdateDelegation +/-, Snapshot, RevertToSnapshot, Finalise, IntermediateRoot, Commit+state.New, Copy, GetValidatorsForUpdate) over 6 validator keys and 6 delegator accounts, amounts at stake-unit boundaries; 30% of the histories fork (Copy with BOTH handles kept alive over the shared database: build-up of one or two focus delegators' lists to a length with a spare slot, ops interleaved on both handles that mostly add/withdraw delegations of the focus delegators with new validators sorting last, Commit+reload of both; after every op the property oracle runs on both handles and the idle handle's observation must not change; each handle is one case: its own projected history); 35% of the update ops use the in-place convention (the stored record is written, then UpdateValidator(stored, copy)) with any kind of change, and a withdrawal of a delegation from an online validator is followed half of the time by the in-place status change of staking.teDelegationSub; besides the histories, 10+n/6 handler histories per run drive the REAL end-of-block code of package staking unmodified (teCreate, teUpdate, teDeposit, teWithdraw, teChangeStatus, teDelegationAdd, teDelegationSub, doPenalize/takePenalty, slashingAndRecoveringYouV5, rewardsToPool, distributeRewards, settleValidatorRewards) on validators with delegations and non-whole amounts (fractions 0, 1 LU, 1 YOU - 1 LU, halves, hundredths, random), interleaved with IntermediateRoot, Commit+reload, Copy, Snapshot/Revert, the oracle after every step and after a final Commit+reload (oracle only); 10+n/10 scenarios per run drive the REAL staking.teDelegationSub (oracle only: total stake at MinStakes, withdrawal below it, then Copy/IntermediateRoot/Commit+reload); 55% of the histories stay inside the disciplined finding-free class, 45% are adversarial (finding classes, broken caller discipline, invalid roles/ids); a case is one history with the hash of the complete projected state (statistics, index, cached objects with slice length/capacity, trie records, delegator accounts, journal/revision counters) after every op; non-trivial = contains a create/update/delegate; distinct by full history"
+	res.Rule = "random histories of public StateDB calls (fund, CreateValidator, PartialCopy+UpdateValidator as deposit/withdraw/status/role/rewards/in-place/raw write, RemoveValidator, UpdateDelegation +/-, Snapshot, RevertToSnapshot, Finalise, IntermediateRoot, Commit+state.New, Copy, GetValidatorsForUpdate) over 6 validator keys and 6 delegator accounts, amounts at stake-unit boundaries; 30% of the histories fork (Copy with BOTH handles kept alive over the shared database: build-up of one or two focus delegators' lists to a length with a spare slot, ops interleaved on both handles that mostly add/withdraw delegations of the focus delegators with new validators sorting last, Commit+reload of both; after every op the property oracle runs on both handles and the idle handle's observation must not change; each handle is one case: its own projected history); 35% of the update ops use the in-place convention (the stored record is written, then UpdateValidator(stored, copy)) with any kind of change, and a withdrawal of a delegation from an online validator is followed half of the time by the in-place status change of staking.teDelegationSub; besides the histories, 10+n/8 whole-block scenarios per run call the exported staking.EndBlock (upgrade check, slashing hook, rewardsToPool, endStakingPeriod with inactivity slashing/recovery, reward distribution, withdraw queue and signed pending staking transactions taking effect) on committed+reloaded states with every role, inactive and expelled-expired validators, fractional delegations, oracle after each block and after Commit+reload; 10+n/6 handler histories per run drive the REAL end-of-block code of package staking unmodified (teCreate, teUpdate, teDeposit, teWithdraw, teChangeStatus, teDelegationAdd, teDelegationSub, doPenalize/takePenalty, slashingAndRecoveringYouV5, rewardsToPool, distributeRewards, settleValidatorRewards) on validators with delegations and non-whole amounts (fractions 0, 1 LU, 1 YOU - 1 LU, halves, hundredths, random), interleaved with IntermediateRoot, Commit+reload, Copy, Snapshot/Revert, the oracle after every step and after a final Commit+reload (oracle only); 10+n/10 scenarios per run drive the REAL staking.teDelegationSub (oracle only: total stake at MinStakes, withdrawal below it, then Copy/IntermediateRoot/Commit+reload); 55% of the histories stay inside the disciplined finding-free class, 45% are adversarial (finding classes, broken caller discipline, invalid roles/ids); a case is one history with the hash of the complete projected state (statistics, index, cached objects with slice length/capacity, trie records, delegator accounts, journal/revision counters) after every op; non-trivial = contains a create/update/delegate; distinct by full history"
 	for i, c := range cases {
 		res.CaseDescs = append(res.CaseDescs, History{Ops: c.Ops, Comment: c.Comment})
 		if i < 3 {
@@ -1515,6 +1568,19 @@ func replay(file string, verbose bool) {
 	if err := json.Unmarshal(b, &h); err != nil {
 		fmt.Println(err)
 		os.Exit(2)
+	}
+	if h.Periods != nil {
+		f, kn, _ := runPeriods(h.Periods)
+		if f != "" {
+			fmt.Println("ORACLE VIOLATION:", f)
+			os.Exit(1)
+		}
+		if kn != "" {
+			fmt.Println("ORACLE VIOLATION:", kn, "[inside known finding class "+F10+"]")
+			os.Exit(1)
+		}
+		fmt.Println("property holds on this whole-block scenario")
+		return
 	}
 	if h.Handlers != nil {
 		f, kn, _ := runHandlers(h.Handlers)
